@@ -384,6 +384,7 @@ def spanish():
 
     rows.append({"word": ",", "digits": "", "kind": "comma", "marker": None, "expect": None, "desc": "a comma is never a number word (it ends the number in progress)"})
     rows.append({"word": "y", "digits": "", "kind": "link", "marker": None, "expect": None, "desc": "the conjunction: a link word once the number has two digits, not a number word otherwise"})
+    rows.append({"word": "coma", "digits": "", "kind": "sep", "marker": None, "expect": None, "desc": "the decimal separator is not a number word: refused outright, the digits untouched"})
     for w_, p_ in (("mil", 3), ("millón", 6), ("millon", 6), ("millones", 6)):
         rows.append({"word": w_, "digits": "", "kind": "scale", "p": p_, "k": 0, "marker": None, "expect": "1" + "0" * p_, "desc": f"multiplies the last group by 10^{p_} (implicit one on an empty group)"})
     for w_, k_, mk_ in (("milésimo", 2, "º"), ("milésimos", 3, "ᵒˢ"), ("milésima", 4, "ª"), ("milésimas", 5, "ᵃˢ")):
@@ -392,6 +393,8 @@ def spanish():
     def row_stmt(r):
         if r["word"] == ",":
             return f"!es_model({W(',')}, o).ok && !(es_model({W(',')}, o).err is Incomplete)"
+        if r["kind"] == "sep":
+            return f"!es_model({W(r['word'])}, o).ok && !(es_model({W(r['word'])}, o).err is Incomplete) && core_same(es_model({W(r['word'])}, o).v, o)"
         if r["kind"] == "link":
             return f"(o.marker is None) ==> es_model({W(r['word'])}, o) == (if size_of(o) >= 2 {{ err_res(o, Error::Incomplete) }} else {{ err_res(o, Error::NaN) }})"
         if r["kind"] == "scale":
@@ -449,6 +452,7 @@ def spanish():
     d.append(f"pub proof fn lemma_es_y(o: DsView) requires o.marker is None ensures es_model({W('y')}, o) == (if size_of(o) >= 2 {{ err_res(o, Error::Incomplete) }} else {{ err_res(o, Error::NaN) }}) {{ es_rows_{modof['y']}::lemma_es_row_y(o); }}")
     d.append(f"pub proof fn lemma_es_mil(o: DsView) ensures es_scale_row(3, 0, o, es_model({W('mil')}, o)) {{ es_rows_{modof['mil']}::lemma_es_row_mil(o); }}")
     d.append(f"pub proof fn lemma_es_millon(o: DsView) ensures es_scale_row(6, 0, o, es_model({W('millón')}, o)), es_scale_row(6, 0, o, es_model({W('millones')}, o)) {{ es_rows_{modof['millón']}::lemma_es_row_{wname('millón')}(o); es_rows_{modof['millones']}::lemma_es_row_millones(o); }}")
+    d.append(f"pub proof fn lemma_es_coma(o: DsView) ensures !es_model({W('coma')}, o).ok, core_same(es_model({W('coma')}, o).v, o), {W('y')} != {W('coma')} {{ es_rows_{modof['coma']}::lemma_es_row_coma(o); es_ne_coma(); }}")
     d.append(f"pub proof fn lemma_es_cero(o: DsView) ensures es_row(d1(48u8), 0, false, false, o, es_model({W('cero')}, o)) {{ es_rows_{modof['cero']}::lemma_es_row_cero(o); }}")
     # ordinals: value -> base word (masculine singular); the four gender/number forms are kinds 2 (º), 3 (ᵒˢ), 4 (ª), 5 (ᵃˢ)
     ovals = {int(v): w for w, v in ords.items()}
@@ -526,6 +530,7 @@ def french():
         add(cw, k, "", exp, k)
 
     add("et", "et", "", None, "`et` links a round ten to un / onze; after a ten said with dix (10, 70, 90) it ends the number")
+    add("virgule", "sep", "", None, "the decimal separator is not a number word: refused outright, the digits untouched")
 
     def lemma_of(w):
         return w.rstrip("s") if (w.endswith("s") and w != "trois") else w
@@ -565,6 +570,8 @@ def french():
             return f"fr_row_teen({ord(r['digits'][1])}u8, {k}, {63 if r['digits'] == '10' else 0}, o, fr_model({W(r['word'])}, o))"
         if kind == "vingt":
             return f"fr_row_vingt({k}, o, fr_model({W(r['word'])}, o))"
+        if kind == "sep":
+            return f"!fr_model({W(r['word'])}, o).ok && !(fr_model({W(r['word'])}, o).err is Incomplete) && core_same(fr_model({W(r['word'])}, o).v, o)"
         if kind == "et":
             return f"fr_row_et(o, fr_model({W(r['word'])}, o))"
         return f"fr_row_scale({ {'cent': 2, 'mille': 3, 'million': 6, 'milliard': 9}[kind] }, {k}, o, fr_model({W(r['word'])}, o))"
@@ -608,8 +615,9 @@ def french():
         d.append(f"pub proof fn {name}(o: DsView) ensures {row_stmt(byw[w])} {{ {c}_rows_{modof[w]}::lemma_{c}_row_{wname(w)}(o); }}")
     for nm, w in [("lemma_fr_vingt", "vingt"), ("lemma_fr_vingts", "vingts"), ("lemma_fr_cent", "cent"), ("lemma_fr_cents", "cents"), ("lemma_fr_mille", "mille"),
                   ("lemma_fr_million", "million"), ("lemma_fr_millions", "millions"), ("lemma_fr_milliard", "milliard"), ("lemma_fr_milliards", "milliards"),
-                  ("lemma_fr_et", "et"), ("lemma_fr_zero", "zéro")]:
+                  ("lemma_fr_et", "et"), ("lemma_fr_zero", "zéro"), ("lemma_fr_virgule", "virgule")]:
         one(nm, w)
+    d.append(f"pub proof fn lemma_fr_link_sep() ensures {W('et')} != {W('virgule')} {{ fr_ne_virgule(); }}")
     open(os.path.join(T, "fr_dispatch.inc"), "w", encoding="utf-8").write("\n".join(d) + "\n")
     print(c + ":", len(arms), "arms,", len(rows), "rows,", len(allwords), "words")
 
